@@ -103,22 +103,23 @@ def r19_2(ctx):
 
 def r19_3(ctx):
     out = []
-    fk = ctx.role('finalizer')
-    q = ctx.explore(fk)
-    oks = q.terminals(lambda ev: ev['k'] == 'ret' and ev.get('variant') == 'Ok')
-    P = [e for e in q.prim_edges('meta_perm') if 'handle' in prims.classify(q.E[e][2]['path'])[1]]
-
     def mode_0444(ev):
         mode = arg_role(ev, 'mode')
         t = VAL[mode] if mode is not None else None
         return t is not None and t[0] == 'sym' and t[1] == 'app' and t[2].endswith('PermissionsExt>::from_mode') and VAL[t[4]] == ('int', str(0o444))
-    good = [e for e in P if mode_0444(q.E[e][2])]
-    A = outcomes(q, good, 'Ok')
-    r = q.reach_fwd([q.g.entry], blocked=A)
-    bad = [t for t in oks if t in r]
-    out.append(inst('R19.3', 'finalizer|0444', bool(good) and not bad and len(good) == len(P),
-                    'the finalizer fchmods the temp file to the explicit mode 0o444 before any Ok exit' if good and not bad and len(good) == len(P) else
-                    'the finalizer does not set mode 0o444 through the handle before succeeding (modes seen: %s)' % [show(arg_role(q.E[e][2], 'mode'), 3) for e in P]))
+    for fk in ctx.role('finalizers'):
+        q = ctx.explore(fk)
+        oks = q.terminals(lambda ev: ev['k'] == 'ret' and ev.get('variant') == 'Ok')
+        P = [e for e in q.prim_edges('meta_perm') if 'handle' in prims.classify(q.E[e][2]['path'])[1]]
+        if not P:
+            continue     # not every helper of that shape chmods; what matters is the per-insert rule below
+        good = [e for e in P if mode_0444(q.E[e][2])]
+        A = outcomes(q, good, 'Ok')
+        r = q.reach_fwd([q.g.entry], blocked=A)
+        bad = [t for t in oks if t in r]
+        out.append(inst('R19.3', 'finalizer %s|0444' % ctx.B[fk]['name'], bool(good) and not bad and len(good) == len(P),
+                        'the finalizer fchmods the temp file to the explicit mode 0o444 before any Ok exit' if good and not bad and len(good) == len(P) else
+                        'the finalizer does not set mode 0o444 through the handle before succeeding (modes seen: %s)' % [show(arg_role(q.E[e][2], 'mode'), 3) for e in P]))
     # every temp-file insert by the stacked cache is dominated by that chmod
     wt = ctx.role('write_trait')
     ins = ctx.insert_methods()
